@@ -318,7 +318,90 @@ def registration_forms(ctx):
                         pass
 
 
+def hand_registered_dataclasses(ctx):
+    """Standard-library dataclasses registered by hand (function form), for every layout of up to 3 fields over
+    {child, init=False non-child before / between / after children, keyword-only child} x entries {None, field names,
+    indices} x entry class {AutoEntry (default), GetAttrEntry, DataclassEntry}: accessors reach the leaves, codify evaluates
+    to them, DataclassEntry.field / .name name the right field."""
+    import dataclasses as std  # noqa: PLC0415
+    import itertools  # noqa: PLC0415
+
+    from optree.accessor import AutoEntry, DataclassEntry, GetAttrEntry  # noqa: PLC0415
+
+    from mc.universe import Leaf  # noqa: PLC0415
+
+    n = 0
+    for layout in itertools.chain.from_iterable(itertools.product(('child', 'noinit', 'kwchild'), repeat=k) for k in (1, 2, 3)):
+        if not any(f != 'noinit' for f in layout):
+            continue
+        for entries_kind in ('none', 'names', 'indices'):
+            for entry_cls_name in ('default', 'GetAttrEntry', 'DataclassEntry', 'AutoEntry'):
+                if entry_cls_name == 'GetAttrEntry' and entries_kind != 'names':
+                    continue
+                n += 1
+                if not ctx.mine(n):
+                    continue
+                ns = f'ns4-hand-{n}'
+                names = [f'f{i}' for i in range(len(layout))]
+                body = {'__annotations__': {nm: object for nm in names}}
+                for nm, f in zip(names, layout):
+                    if f == 'noinit':
+                        body[nm] = std.field(init=False, default='static')
+                    elif f == 'kwchild':
+                        body[nm] = std.field(kw_only=True)
+                cls = std.dataclass(type(f'HD{n}', (), body))
+                child_names = [nm for nm, f in zip(names, layout) if f != 'noinit']
+                # integer entries index the INIT fields (that is what DataclassEntry documents)
+                init_names = [f.name for f in std.fields(cls) if f.init]
+
+                def fl(o, child_names=child_names, init_names=init_names, entries_kind=entries_kind):
+                    ents = None if entries_kind == 'none' else tuple(child_names) if entries_kind == 'names' else tuple(
+                        init_names.index(c) for c in child_names)
+                    return tuple(getattr(o, c) for c in child_names), None, ents
+
+                def unfl(meta, ch, cls=cls, child_names=child_names):
+                    return cls(**dict(zip(child_names, ch)))
+
+                kw = {} if entry_cls_name == 'default' else {'path_entry_type': {'GetAttrEntry': GetAttrEntry, 'DataclassEntry': DataclassEntry, 'AutoEntry': AutoEntry}[entry_cls_name]}
+                ctx.count()
+                ctx.cls(('hand-dataclass', layout, entries_kind, entry_cls_name))
+                case = {'hand_dataclass': list(layout), 'entries': entries_kind, 'entry_class': entry_cls_name}
+                try:
+                    optree.register_pytree_node(cls, fl, unfl, namespace=ns, **kw)
+                    leaves = [Leaf(i) for i in range(len(child_names))]
+                    obj = cls(**dict(zip(child_names, leaves)))
+                    tree = [obj]
+                    accs, lvs, _ = optree.tree_flatten_with_accessor(tree, namespace=ns)
+                    problems = []
+                    if len(lvs) != len(leaves) or any(a is not b for a, b in zip(lvs, leaves)):
+                        problems.append(f'leaves {lvs!r}')
+                    for a, leaf, cname in zip(accs, leaves, child_names):
+                        e = a[-1]
+                        r = outcome_of(lambda a=a: a(tree))
+                        if r[0] != 'ok' or r[1] is not leaf:
+                            problems.append(f'accessor {a!r} -> {r!r}, expected the leaf under field {cname}')
+                        if isinstance(e, DataclassEntry):
+                            nm = outcome_of(lambda e=e: (e.name, e.field))
+                            if nm != ('ok', (cname, cname)):
+                                problems.append(f'{e!r}: (name, field) = {nm!r}, expected {cname}')
+                            code = a.codify('t')
+                            ev = outcome_of(lambda code=code: eval(code, {'t': tree}))  # noqa: S307
+                            if ev[0] != 'ok' or ev[1] is not leaf:
+                                problems.append(f'codify {code} -> {ev!r}')
+                    for p_ in problems:
+                        ctx.violation('hand-registered-dataclass', f'{PROP}:hand-registered-dataclass', case, p_[:400])
+                    ctx.outcome(f'hand-dataclass:{type(accs[0][-1]).__name__ if accs else "none"}')
+                except Exception as ex:  # noqa: BLE001
+                    ctx.violation('hand-registered-dataclass', f'{PROP}:hand-registered-dataclass', case, f'{type(ex).__name__}: {ex}'[:300])
+                finally:
+                    try:
+                        optree.unregister_pytree_node(cls, namespace=ns)
+                    except Exception:  # noqa: BLE001
+                        pass
+
+
 def run_shard(ctx):
+    hand_registered_dataclasses(ctx)
     if ctx.shard == 0:
         same_name_histories(ctx)
     if ctx.shard == 1 % ctx.nshards:
@@ -329,6 +412,8 @@ def run_shard(ctx):
 
 def replay(case, ctx):
     c = case['case']
+    if 'hand_dataclass' in c:
+        return hand_registered_dataclasses(ctx)
     if 'registration_form' in c:
         return registration_forms(ctx)  # the whole 84-case product is re-run (cheap); the case names the failing cell
     if 'same_name_history' in c or 'same_name_dataclass' in c:
